@@ -81,6 +81,31 @@ def to_lib_variant(g, obj, k):
     return O.to_lib(obj, "float")
 
 
+def same_lib_result(r1, r2, tol=1e-7):
+    """two library results denote the same set (None; Point; Segment up to the order of its ends; HalfLine / Line / Plane by the library's own ==;
+    polygons and polyhedra by their vertex sets)"""
+    if r1 is None or r2 is None:
+        return r1 is None and r2 is None
+    if type(r1) is not type(r2):
+        return False
+    d1, d2 = O.from_lib(r1), O.from_lib(r2)
+    near = lambda a, b: all(abs(x - y) <= tol * max(1.0, abs(x), abs(y)) for x, y in zip(a, b))
+    same_set = lambda A, B: len(A) == len(B) and all(any(near(a, b) for b in B) for a in A) and all(any(near(a, b) for a in A) for b in B)
+    k = d1[0]
+    if k == "Point":
+        return near(d1[1], d2[1])
+    if k == "Segment":
+        return same_set([d1[1], d1[2]], [d2[1], d2[2]])
+    if k == "Polygon":
+        return same_set(list(d1[1]), list(d2[1]))
+    if k == "Polyhedron":
+        return same_set(list(d1[2]), list(d2[2]))
+    try:
+        return bool(r1 == r2)
+    except Exception:
+        return False
+
+
 def admitted(a, b, result):
     """the property's admission filter: every incidence exact or violated by a relative margin > 1e-3,
     no hashed quantity within 5e-13 of a rounding boundary of the 10-digit hash"""
